@@ -128,7 +128,7 @@ Lemma active_update_elite dim P st pop invs :
             if parent_le RO st (ai_fit best) then (ai_x best, Some (ai_fit best)) else (as_parent st, as_pfit st)]
   end.
 Proof.
-rewrite /active_update; cbv zeta; rewrite !List_filterE -/(valid_pop pop).
+rewrite /active_update /active_update_rank1; cbv zeta; rewrite !List_filterE -/(valid_pop pop).
 set sorted0 := sort_desc _ (valid_pop pop).
 have hd : ohead sorted0 = first_best (valid_pop pop) by rewrite /sorted0 sort_key_eq_a ohead_sort_desc.
 have sz : size sorted0 = size (valid_pop pop) by rewrite /sorted0 sort_key_eq_a size_sort_desc.
